@@ -562,6 +562,53 @@ fn c11_after_cut(
             return
         }
     }
+    // In half of the cases another publication arrives before the
+    // failed write is retried (the task retries it an hour later), so that
+    // the files on disk are more than one serial behind the content when
+    // the next write takes place.
+    let early_publication = Rng::new(
+        r.world.sim_secs as u64 ^ 0x5eed_c11
+    ).fork(what).chance(1, 2);
+    if early_publication && !is_twin {
+        r.stat("c11.publication_before_retry");
+        {
+            let inst = r.world.inst(0);
+            inst.enter();
+            let _ = block_on(inst.mgr().republish_all(true));
+        }
+        let res = r.exec_pump();
+        hooks::log(format!("early publication pump {res}"));
+        if r.dead.is_some() {
+            r.violation(
+                "C11", "recovery_dies",
+                format!("{what}: publication before the retry ended with {:?}", r.dead)
+            );
+            return
+        }
+        match served::fetch_rrdp(&repo_dir, &base_uri) {
+            Ok((view, problems)) => {
+                for p in problems {
+                    r.violation(
+                        "C11", "rrdp_files_inconsistent",
+                        format!("{what} after a publication before the retry: {p}")
+                    );
+                }
+                for p in mem.observe(
+                    &view, false, usize::MAX, cfg.min_nr,
+                    cfg.min_seconds as i64, seams::now_secs()
+                ) {
+                    r.violation(
+                        "C11", "rrdp_client",
+                        format!("{what} after a publication before the retry: {p}")
+                    );
+                }
+            }
+            Err(err) => r.violation(
+                "C11", "notification_unusable",
+                format!("{what} after a publication before the retry: {err}")
+            ),
+        }
+    }
     // (2) Background work completes the interrupted write. A failed
     // write is retried by the task an hour later.
     for round in 0..3 {
@@ -1052,7 +1099,9 @@ pub fn run_pair_only(
             report.kv_mutations += res.kv;
             report.fs_mutations += res.fs;
             for (name, n) in res.stats.iter() {
-                if name.starts_with("second_crash.") {
+                if name.starts_with("second_crash.")
+                    || name.starts_with("c11.")
+                {
                     *report.stats.entry(name.clone()).or_insert(0) += n;
                 }
             }
